@@ -29,6 +29,7 @@ META = {
     "assumptions": [],
     "not_decided": "the sampling distributions themselves",
 }
+META["explanation"] += " Also DEP-C18 E1 (no save / restore of the global generators' state) and the COPY clause of the imputers."
 MIN_INSTANCES = {"ORDER": 3, "ROW": 3, "ORIG": 1}
 
 
